@@ -323,6 +323,16 @@ func fixedCases() []corr.Case {
 		mk("window", "new mq 0 0", "pop", "popany", "atomic addc 1 ; add 2 ; close"),
 		// a long backlog, fully drained, then a consumer parks and one more item arrives
 		mk("bulk", "new syncq", "addn 4200 1000", "drain", "pop", "add 7", "pop", "add 8", "close"),
+		// a consumer arriving at a ring buffer that is exactly full (2^k items), one below, one above
+		mk("ring", "new syncq", "addn 15 1", "pop", "pop", "trypop", "close"),
+		mk("ring", "new syncq", "addn 16 1", "pop", "pop", "trypop", "close"),
+		mk("ring", "new syncq", "addn 17 1", "pop", "pop", "trypop", "close"),
+		mk("ring", "new syncq", "addn 31 1", "pop", "pop", "trypop", "close"),
+		mk("ring", "new syncq", "addn 32 1", "pop", "pop", "trypop", "close"),
+		mk("ring", "new syncq", "addn 33 1", "pop", "pop", "trypop", "close"),
+		mk("ring", "new syncq", "addn 64 1", "pop", "pop", "trypop", "close"),
+		mk("ring", "new syncq", "addn 128 1", "pop", "pop", "trypop", "close"),
+		mk("ring", "new syncq", "pop", "addn 16 1", "pop", "addn 15 100", "pop", "pop"),
 		mk("bulk", "new syncq", "pop", "addn 3 1", "addn 5000 10", "drain", "pop", "pop", "addn 2 9000"),
 		// an *Anyway add waiting for room while consumers empty the queue and park: its retry must wake them
 		mk("anyway", "new mux 1", "add 1", "addany 2", "pop", "pop", "settle", "settle", "close"),
